@@ -105,13 +105,14 @@ func init() {
 			// through the public constructor, capacities 2..17 (also beyond any internal initial size): N+3 Puts
 			hrun{Harness: "vhC18FiniteHistory", Covers: []string{"C18/FiniteHistory/ran"}},
 			hrun{Harness: "vhC09History", Params: P("K", 5, "AUTO", 0), Covers: []string{"C09/History/replayed"}}),
-		Thorough: append(append(each(P("CAP", 5, "AUTO", 0, "TOPICS", 1), "vhC08Put"), append(each(P("AUTO", 0, "SIZES", 4, "TOPICS", 1), "vhC09GC", "vhC09Put"), each(P("AUTO", 1, "SIZES", 4, "TOPICS", 1), "vhC09GC", "vhC09Put")...)...),
+		Thorough: append(append(each(P("CAP", 5, "AUTO", 0, "TOPICS", 1), "vhC08Put"), append(each(P("AUTO", 0, "SIZES", 4, "TOPICS", 1), "vhC09GC"), each(P("AUTO", 1, "SIZES", 4, "TOPICS", 1), "vhC09GC")...)...),
+			hrun{Harness: "vhC09Put", Params: P("AUTO", 1, "SIZES", 3, "TOPICS", 1)},
 			hrun{Harness: "vhC09GC", Params: P("AUTO", 0, "SIZES", 2, "TOPICS", 1, "PREREPLAY", 1)},
 			hrun{Harness: "vhC09Put", Params: P("AUTO", 1, "SIZES", 2, "TOPICS", 1, "PREREPLAY", 1)}),
 		Labels: []string{"C18/", "C09/History/", "inv-dead-slots-are-zero", "holds-exactly-last-N", "drops-exactly-the-expired-prefix", "inv-", "gc-interval-not-restarted", "collection-time-recorded", "appends-and-drops-no-unexpired"},
 		Bounds: map[string]string{
 			"quick":    "FiniteReplayer capacity 2-3, ValidReplayer buffer length in {0,4,8}: one Put/GC from every ring state; reachability decided on the executor's explicit heap (slices keep their whole backing array alive)",
-			"thorough": "FiniteReplayer capacity 5, ValidReplayer buffer length in {0,4,8,16} (all grow and shrink steps)",
+			"thorough": "quick plus: FiniteReplayer capacity 5; ValidReplayer GC from buffers of length {0,4,8,16} (all shrink steps), Put with automatic IDs from lengths {0,4,8}; the Replay-then-Put/GC runs without the count bound",
 		},
 		Outside: []string{"the Go garbage collector and finalizers themselves: 'unreachable in the executor's heap' is taken to imply collectable", "messages the caller still references"},
 		Oracle:  "after the operation no evicted / collected message is reachable from the replayer value, every slot outside the live window is the zero value, and at most N messages are held",
@@ -371,15 +372,14 @@ func init() {
 		Thorough: []hrun{
 			{Harness: "vhC12Merge", Covers: []string{"C12/Merge/jitter-minus-one"}},
 			{Harness: "vhC12Logic", Params: P("K", 4), Covers: []string{"C12/Logic/limit-hit", "C12/Logic/elapsed-refusal", "C12/Logic/retry-granted"}, NoNative: true},
-			{Harness: "vhC12Logic", Params: P("K", 2, "JITTER", 1), Solver: "z3-new", Covers: []string{"C12/Logic/retry-granted"}, NoNative: true},
-			{Harness: "vhC12Connect", Params: P("A", 3, "CANCEL", 0, "BODYKINDS", 1, "TPLMASK", 17, "RDIGITS", 2), Covers: []string{"C12/Connect/server-retry-used"}},
+			{Harness: "vhC12Logic", Params: P("K", 1, "JITTER", 1), Solver: "z3-new", Covers: []string{"C12/Logic/retry-granted"}, NoNative: true},
 			{Harness: "vhC12Connect", Params: P("A", 4, "CANCEL", 0, "BODYKINDS", 1, "TPLMASK", 9), Covers: []string{"C11/Connect/retries-exhausted"}},
 			{Harness: "vhC12Connect", Params: P("A", 2, "CANCEL", 0, "BODYKINDS", 1, "TPLMASK", 129, "RDIGITS", 2), Covers: []string{"C12/Connect/server-retry-used"}},
 		},
 		Labels: []string{"C12/", "panic:"},
 		Bounds: map[string]string{
 			"quick":    "mergeDefaults on a fully symbolic Backoff (64-bit integers, IEEE doubles, NaN excluded); the backoff controller through every sequence of 3 events {retry requested, successful connection with server retry in {0,-5ns,250ms,4s}} with InitialInterval in {1ns,1us,3s}, Multiplier in {1,1.5,2}, MaxInterval in {0,2.5us,7s}, MaxRetries in {-1,0,1,3}, Jitter -1, symbolic MaxElapsedTime in [-1,2^40] and a symbolic non-decreasing clock; the Connect loop with scripts of <=2 attempts whose streams carry retry:<2 symbolic bytes>, and <=3 attempts for the retry-count limit",
-			"thorough": "sequences of 4 events; Jitter in {0.5,0.25,0.9} with an arbitrary rng value in [0,1) for 2 events (floating point, z3 5.1); Connect scripts one attempt longer",
+			"thorough": "quick plus: sequences of 4 events without jitter; Jitter in {0.5,0.25,0.9} with an arbitrary rng value in [0,1) for one event from every configuration (floating point, z3 5.1); Connect scripts of 4 attempts; a retry field in a cut block next to the data-only template",
 		},
 		Outside: []string{"real-valued Jitter/Multiplier other than the listed ones in the schedule clauses (mergeDefaults is decided for all values)", "waits after the first one of a series started by a server retry value inside the Connect harness (floating-point growth: decided in the controller harness for the listed configurations)", "float to Duration overflow", "wall-clock timing: timers fire at once, time.Now is an arbitrary non-decreasing value"},
 		Oracle:  "recurrence b_1 = InitialInterval or the server retry value, b_(k+1) = min(b_k*Multiplier, MaxInterval); wait within +-Jitter of b_k (exactly b_k for -1), rounded outward to whole nanoseconds; at most MaxRetries grants in a row; refusal only when elapsed+wait would exceed MaxElapsedTime; OnRetry once per retry with the duration the timer is armed with",
